@@ -95,10 +95,15 @@ pub struct Limits {
 impl Default for Limits {
     fn default() -> Self {
         Self {
-            threads: std::thread::available_parallelism()
-                .map(|n| n.get())
-                .unwrap_or(8)
-                .min(16),
+            threads: std::env::var("VERIF_THREADS")
+                .ok()
+                .and_then(|s| s.parse().ok())
+                .unwrap_or_else(|| {
+                    std::thread::available_parallelism()
+                        .map(|n| n.get())
+                        .unwrap_or(8)
+                        .min(16)
+                }),
             wall: Duration::from_secs(3600),
             max_fingerprints: 32_000_000,
             max_fails: 200_000,
